@@ -522,6 +522,8 @@ impl ChecksumServiceContext {
             ("SUMI32", 4, true),
             ("SUMI64", 8, true),
             ("CRC32", 4, false),
+            ("SumU32Mx", 4, false),
+            ("sumu16lc", 2, false),
         ] {
             c.register(name, Box::new(Sum { width, signed }));
         }
